@@ -73,7 +73,7 @@ def run_optable(prop):
         ev.cov["bounds"].append(f"type-state flow lemmas: IfStatement, Not, Group, Predicate, Unary, Container, Return, Abort (no bound); Block 1..{tb['block']} expressions, Array/Object 0..{tb['array']} elements; "
                                 "children are oracles that return an arbitrary type and name the state they leave after the state they were given")
         tobls, tfns = typeflowlemmas.obligations(S, tb)
-        battery_of = {o.role: (typeflowlemmas.closure_battery if "closure-body" in o.role else typeflowlemmas.assignment_battery if "AssignVariant::type_info" in o.role else typeflowlemmas.battery) for o in tobls}
+        battery_of = {o.role: (typeflowlemmas.closure_battery if "closure-body" in o.role else typeflowlemmas.assignment_battery if "AssignVariant::type_info" in o.role else typeflowlemmas.op_battery if ":Op::type_info[" in o.role else typeflowlemmas.battery) for o in tobls}
         import envlemmas
         eobls, efns = envlemmas.obligations(S)
         for o in eobls:
